@@ -217,7 +217,7 @@ pub fn run(ctx: &Ctx) -> Outcome {
         }
     }
     // seeded random longer templates
-    let n_random = ctx.tier.pick(50_000u64, 1_000_000);
+    let n_random = ctx.tier.pick(1_500_000u64, 5_000_000);
     let rchunks = 16;
     for i in 0..rchunks {
         work.push((usize::MAX, i, n_random / rchunks));
